@@ -1,16 +1,44 @@
 #!/venv/bin/python -SE
-# generic RPC actor: fake slurm commands, job probes, hook probes
-import os, sys, json, socket
+"""Generic RPC actor: simulated SLURM commands, job probes, lifecycle-command probes.
+
+Announces itself to the driver (argv, environment, cwd, virtual node/host) and does whatever the
+driver answers: print text, exit with a code, or die here.
+"""
+import json
+import os
+import socket
+import sys
+
 role = os.path.basename(sys.argv[0])
 s = socket.socket(socket.AF_UNIX, socket.SOCK_SEQPACKET)
 s.connect(os.environ["VSIM_SOCK"])
 env = {k: v for k, v in os.environ.items() if k.startswith(("JADE_", "SLURM_", "VSIM_NODE", "VSIM_HOST"))}
-s.send(json.dumps({"k": "hello", "pid": os.getpid(), "ppid": os.getppid(), "role": role, "argv": sys.argv, "env": env, "cwd": os.getcwd(), "node": os.environ.get("VSIM_NODE"), "host": os.environ.get("VSIM_HOST")}).encode())
-rep = json.loads(s.recv(65536))
+s.send(
+    json.dumps(
+        {
+            "k": "hello",
+            "pid": os.getpid(),
+            "ppid": os.getppid(),
+            "role": role,
+            "argv": sys.argv,
+            "env": env,
+            "cwd": os.getcwd(),
+            "node": os.environ.get("VSIM_NODE"),
+            "host": os.environ.get("VSIM_HOST"),
+            "tag": os.environ.get("VSIM_TAG"),
+        }
+    ).encode()
+)
+data = s.recv(1 << 16)
+if not data:
+    os._exit(111)
+rep = json.loads(data)
 if rep.get("a") == "die":
     os.kill(os.getpid(), 9)
 if rep.get("out"):
-    sys.stdout.write(rep["out"]); sys.stdout.flush()
+    sys.stdout.write(rep["out"])
+    sys.stdout.flush()
 if rep.get("err"):
-    sys.stderr.write(rep["err"]); sys.stderr.flush()
+    sys.stderr.write(rep["err"])
+    sys.stderr.flush()
 os._exit(rep.get("rc", 0))
